@@ -295,6 +295,13 @@ func checkC02(c *km.Ctx) {
 			r.Add("R-C02-3", km.FuncName(fn), "ssh: extensions", posOf(c, ci), "expandSSHExtensions(authenticated user)", km.ValStr(a[5]), extOK)
 		}
 	}
+	if fn := c.P.Func("cmd/keymasterd", "(*RuntimeState).expandSSHExtensions"); fn != nil {
+		// the certificate carries every configured extension or is not issued: a template that does not expand
+		// is an error, not an entry to skip
+		if n := checkErrorAborts(c, "R-C02-3", fn, "mvdan.cc/sh/v3/shell.Expand", 1, "configured extension that does not expand"); n == 0 {
+			r.AnchorLost("R-C02-3", "expansion of the configured extensions in expandSSHExtensions")
+		}
+	}
 	if fn := c.MustFunc("R-C02-3", "cmd/keymasterd", "(*RuntimeState).expandSSHExtensions"); fn != nil && len(fn.AnonFuncs) == 1 {
 		mapper := fn.AnonFuncs[0]
 		ok := true
